@@ -94,9 +94,26 @@ def check(run):
                     elif qi % 6 == 4:
                         # compounds that carry attributes besides their clauses
                         f = rng.choice(world.TEXT_FIELDS)
-                        aq = {"op": "sequence", "kids": [{"op": "term", "f": f, "t": world.rand_term(rng), "b4": 4}
-                                                         for _ in range(rng.randrange(2, 4))],
+                        terms = [world.rand_term(rng) for _ in range(rng.randrange(2, 4))]
+                        # (mostly words that do occur near one another in some document, in either order)
+                        cands = [d["t"][f] for d in adocs.values() if len([t for t in d["t"].get(f, []) if t != [0]]) >= 2]
+                        if cands and rng.random() < 0.8:
+                            toks = [t for t in rng.choice(cands) if t != [0]]
+                            i = rng.randrange(0, len(toks) - 1)
+                            terms = toks[i:i + rng.randrange(2, 4)]
+                            if rng.random() < 0.5:
+                                terms = terms[::-1]
+                        aq = {"op": "sequence", "kids": [{"op": "term", "f": f, "t": list(t), "b4": 4} for t in terms],
                               "slop": rng.choice([2, 3, 4]), "ordered": rng.random() < 0.5}
+                        if rng.random() < 0.5:
+                            # ... next to a sibling that differs in nothing but such an attribute
+                            twin = dict(aq)
+                            if rng.random() < 0.5:
+                                twin["ordered"] = not aq["ordered"]
+                            else:
+                                twin["slop"] = 1
+                            kids = [aq, twin] if rng.random() < 0.5 else [twin, aq]
+                            aq = {"op": rng.choice(["or", "and"]), "kids": kids, "b4": 4}
                     aq2 = world.rand_query(rng, rng.randrange(0, 2), ops=NOFUZZY)
                     q, q2 = world.to_query(aq), world.to_query(aq2)
                     groups = {}
